@@ -3,6 +3,7 @@ CONSTANTS
   Tree = "T1"
   EnvFull = FALSE
   AoptFull = FALSE
+  WithDcf = TRUE
   Emit = TRUE
 INVARIANT AlgIsSelect
 INVARIANT OneSectionPerLevel
